@@ -9,6 +9,6 @@ CONSTANTS
   BugMoveNoReset = FALSE
   BugListMoveCtor = FALSE
 VIEW RView
-INVARIANTS TypeOK
+INVARIANTS TypeOK RingOK NoDeadRef NoUAF NoStaleHead WalkAgree Refines
 CONSTRAINT REmit
 CHECK_DEADLOCK FALSE
